@@ -1,5 +1,6 @@
 //! Model of the three ntex-util items the woven slice needs.
 pub mod future {
+    pub use crate::future_ready::Ready;
     use std::{future::Future, pin::Pin, task::{Context, Poll}};
     #[derive(Debug, Clone, Copy, PartialEq, Eq)]
     pub enum Either<A, B> {
@@ -44,3 +45,453 @@ pub mod future {
 /// registry by weave.py - not a model.
 #[path = "../../../weave/ntex_util_task.rs"]
 pub mod task;
+
+// ---------------------------------------------------------------------------------------------
+// Models for the connection-state slice (v*/shared.rs, v*/sink.rs, io.rs DispatcherState).
+pub mod future_ready {
+    use std::{future::Future, pin::Pin, task::{Context, Poll}};
+    /// `ntex_util::future::Ready`: a future that is immediately ready (Ok / Err / Done forms)
+    #[derive(Debug)]
+    pub enum Ready<T, E> {
+        Ok(T),
+        Err(E),
+        Done(Option<Result<T, E>>),
+    }
+    impl<T, E> Unpin for Ready<T, E> {}
+    impl<T, E> Future for Ready<T, E> {
+        type Output = Result<T, E>;
+        fn poll(self: Pin<&mut Self>, _cx: &mut Context<'_>) -> Poll<Self::Output> {
+            let this = self.get_mut();
+            let r = std::mem::replace(this, Ready::Done(None));
+            match r {
+                Ready::Ok(t) => Poll::Ready(Ok(t)),
+                Ready::Err(e) => Poll::Ready(Err(e)),
+                Ready::Done(Some(r)) => Poll::Ready(r),
+                Ready::Done(None) => panic!("Ready polled after completion"),
+            }
+        }
+    }
+}
+
+/// fixed-capacity value model of `ntex_util::HashSet` (std HashSet with a fast hasher): membership
+/// only; exceeding the capacity is an assertion failure (bounds are chosen so that it cannot
+/// happen on the unchanged tree)
+pub const MSET_CAP: usize = 4;
+#[derive(Debug, Clone)]
+pub struct HashSet<T> {
+    slots: [Option<T>; MSET_CAP],
+}
+impl<T: Copy + PartialEq> Default for HashSet<T> {
+    fn default() -> Self {
+        HashSet { slots: [None; MSET_CAP] }
+    }
+}
+impl<T: Copy + PartialEq> HashSet<T> {
+    pub fn contains(&self, v: &T) -> bool {
+        let mut i = 0;
+        while i < MSET_CAP {
+            if self.slots[i] == Some(*v) {
+                return true;
+            }
+            i += 1;
+        }
+        false
+    }
+    pub fn insert(&mut self, v: T) -> bool {
+        if self.contains(&v) {
+            return false;
+        }
+        let mut i = 0;
+        while i < MSET_CAP {
+            if self.slots[i].is_none() {
+                self.slots[i] = Some(v);
+                return true;
+            }
+            i += 1;
+        }
+        panic!("MODEL CAPACITY: HashSet model holds at most MSET_CAP elements");
+    }
+    pub fn remove(&mut self, v: &T) -> bool {
+        let mut i = 0;
+        while i < MSET_CAP {
+            if self.slots[i] == Some(*v) {
+                self.slots[i] = None;
+                return true;
+            }
+            i += 1;
+        }
+        false
+    }
+    pub fn len(&self) -> usize {
+        let mut n = 0;
+        let mut i = 0;
+        while i < MSET_CAP {
+            if self.slots[i].is_some() {
+                n += 1;
+            }
+            i += 1;
+        }
+        n
+    }
+    pub fn is_empty(&self) -> bool {
+        self.len() == 0
+    }
+    pub fn clear(&mut self) {
+        self.slots = [None; MSET_CAP];
+    }
+}
+
+/// fixed-capacity value model of `ntex_util::HashMap` (get / insert / remove / entry-free subset)
+#[derive(Debug, Clone)]
+pub struct HashMap<K, V> {
+    slots: [Option<(K, V)>; MSET_CAP],
+}
+impl<K: Copy + PartialEq, V> Default for HashMap<K, V> {
+    fn default() -> Self {
+        HashMap { slots: [const { None }; MSET_CAP] }
+    }
+}
+impl<K: Copy + PartialEq, V> HashMap<K, V> {
+    fn find(&self, k: &K) -> Option<usize> {
+        let mut i = 0;
+        while i < MSET_CAP {
+            if let Some((kk, _)) = &self.slots[i] {
+                if *kk == *k {
+                    return Some(i);
+                }
+            }
+            i += 1;
+        }
+        None
+    }
+    pub fn get(&self, k: &K) -> Option<&V> {
+        match self.find(k) {
+            Some(i) => self.slots[i].as_ref().map(|kv| &kv.1),
+            None => None,
+        }
+    }
+    pub fn contains_key(&self, k: &K) -> bool {
+        self.find(k).is_some()
+    }
+    pub fn insert(&mut self, k: K, v: V) -> Option<V> {
+        if let Some(i) = self.find(&k) {
+            let old = self.slots[i].take();
+            self.slots[i] = Some((k, v));
+            return old.map(|kv| kv.1);
+        }
+        let mut i = 0;
+        while i < MSET_CAP {
+            if self.slots[i].is_none() {
+                self.slots[i] = Some((k, v));
+                return None;
+            }
+            i += 1;
+        }
+        panic!("MODEL CAPACITY: HashMap model holds at most MSET_CAP entries");
+    }
+    pub fn remove(&mut self, k: &K) -> Option<V> {
+        match self.find(k) {
+            Some(i) => self.slots[i].take().map(|kv| kv.1),
+            None => None,
+        }
+    }
+    pub fn len(&self) -> usize {
+        let mut n = 0;
+        let mut i = 0;
+        while i < MSET_CAP {
+            if self.slots[i].is_some() {
+                n += 1;
+            }
+            i += 1;
+        }
+        n
+    }
+    pub fn entry(&mut self, k: K) -> hash_map::Entry<'_, K, V> {
+        match self.find(&k) {
+            Some(i) => hash_map::Entry::Occupied(hash_map::OccupiedEntry { map: self, idx: i }),
+            None => hash_map::Entry::Vacant(hash_map::VacantEntry { map: self, key: k }),
+        }
+    }
+}
+pub mod hash_map {
+    use super::HashMap;
+    pub enum Entry<'a, K, V> {
+        Occupied(OccupiedEntry<'a, K, V>),
+        Vacant(VacantEntry<'a, K, V>),
+    }
+    pub struct OccupiedEntry<'a, K, V> {
+        pub(super) map: &'a mut HashMap<K, V>,
+        pub(super) idx: usize,
+    }
+    pub struct VacantEntry<'a, K, V> {
+        pub(super) map: &'a mut HashMap<K, V>,
+        pub(super) key: K,
+    }
+    impl<'a, K: Copy + PartialEq, V> OccupiedEntry<'a, K, V> {
+        pub fn get(&self) -> &V {
+            &self.map.slots[self.idx].as_ref().unwrap().1
+        }
+        pub fn get_mut(&mut self) -> &mut V {
+            &mut self.map.slots[self.idx].as_mut().unwrap().1
+        }
+        pub fn insert(&mut self, v: V) -> V {
+            std::mem::replace(&mut self.map.slots[self.idx].as_mut().unwrap().1, v)
+        }
+    }
+    impl<'a, K: Copy + PartialEq, V> VacantEntry<'a, K, V> {
+        pub fn insert(self, v: V) -> &'a mut V {
+            let k = self.key;
+            self.map.insert(k, v);
+            let i = self.map.find(&k).unwrap();
+            &mut self.map.slots[i].as_mut().unwrap().1
+        }
+    }
+}
+
+pub mod channel {
+    /// Error returned from a `Receiver` when the corresponding `Sender` is dropped.
+    #[derive(Debug, Copy, Clone, PartialEq, Eq)]
+    pub struct Canceled;
+
+    /// model of `ntex_util::channel::pool`: one-shot channels with the semantics of ntex-util 3.6
+    /// (`send` fails iff the receiver is gone; the receiver yields the value if one was sent, else
+    /// `Canceled` once the sender is gone, else Pending and registers the waker; dropping either
+    /// side wakes the other). Slots are leaked allocations instead of a slab.
+    pub mod pool {
+        use super::Canceled;
+        use crate::task::LocalWaker;
+        use std::{cell::Cell, future::Future, marker::PhantomData, pin::Pin, task::{Context, Poll}};
+
+        pub struct Pool<T>(PhantomData<T>);
+        pub fn new<T>() -> Pool<T> {
+            Pool(PhantomData)
+        }
+        impl<T> Default for Pool<T> {
+            fn default() -> Self {
+                new()
+            }
+        }
+        impl<T> Clone for Pool<T> {
+            fn clone(&self) -> Self {
+                Pool(PhantomData)
+            }
+        }
+        impl<T> std::fmt::Debug for Pool<T> {
+            fn fmt(&self, f: &mut std::fmt::Formatter<'_>) -> std::fmt::Result {
+                f.write_str("Pool")
+            }
+        }
+        struct Inner<T> {
+            value: Cell<Option<T>>,
+            sender: Cell<bool>,
+            receiver: Cell<bool>,
+            rx_waker: LocalWaker,
+            tx_waker: LocalWaker,
+        }
+        impl<T> Pool<T> {
+            pub fn channel(&self) -> (Sender<T>, Receiver<T>) {
+                let p: *const Inner<T> = Box::into_raw(Box::new(Inner {
+                    value: Cell::new(None),
+                    sender: Cell::new(true),
+                    receiver: Cell::new(true),
+                    rx_waker: LocalWaker::new(),
+                    tx_waker: LocalWaker::new(),
+                }));
+                (Sender { inner: p }, Receiver { inner: p })
+            }
+            pub fn shrink_to_fit(&self) {}
+        }
+        pub struct Sender<T> {
+            inner: *const Inner<T>,
+        }
+        pub struct Receiver<T> {
+            inner: *const Inner<T>,
+        }
+        impl<T> Unpin for Receiver<T> {}
+        impl<T> Unpin for Sender<T> {}
+        impl<T> std::fmt::Debug for Sender<T> {
+            fn fmt(&self, f: &mut std::fmt::Formatter<'_>) -> std::fmt::Result {
+                f.write_str("Sender")
+            }
+        }
+        impl<T> std::fmt::Debug for Receiver<T> {
+            fn fmt(&self, f: &mut std::fmt::Formatter<'_>) -> std::fmt::Result {
+                f.write_str("Receiver")
+            }
+        }
+        impl<T> Sender<T> {
+            pub fn send(self, val: T) -> Result<(), T> {
+                let inner = unsafe { &*self.inner };
+                if inner.receiver.get() {
+                    inner.value.set(Some(val));
+                    inner.rx_waker.wake();
+                    Ok(())
+                } else {
+                    Err(val)
+                }
+            }
+            pub fn is_canceled(&self) -> bool {
+                !unsafe { &*self.inner }.receiver.get()
+            }
+            pub fn poll_canceled(&self, cx: &mut Context<'_>) -> Poll<()> {
+                let inner = unsafe { &*self.inner };
+                if inner.receiver.get() {
+                    inner.tx_waker.register(cx.waker());
+                    Poll::Pending
+                } else {
+                    Poll::Ready(())
+                }
+            }
+        }
+        impl<T> Drop for Sender<T> {
+            fn drop(&mut self) {
+                let inner = unsafe { &*self.inner };
+                if inner.receiver.get() {
+                    inner.rx_waker.wake();
+                }
+                inner.sender.set(false);
+            }
+        }
+        impl<T> Receiver<T> {
+            pub fn poll_recv(&self, cx: &mut Context<'_>) -> Poll<Result<T, Canceled>> {
+                let inner = unsafe { &*self.inner };
+                if let Some(val) = inner.value.take() {
+                    return Poll::Ready(Ok(val));
+                }
+                if inner.sender.get() {
+                    inner.rx_waker.register(cx.waker());
+                    Poll::Pending
+                } else {
+                    Poll::Ready(Err(Canceled))
+                }
+            }
+        }
+        impl<T> Drop for Receiver<T> {
+            fn drop(&mut self) {
+                let inner = unsafe { &*self.inner };
+                if inner.sender.get() {
+                    inner.tx_waker.wake();
+                }
+                inner.receiver.set(false);
+            }
+        }
+        impl<T> Future for Receiver<T> {
+            type Output = Result<T, Canceled>;
+            fn poll(self: Pin<&mut Self>, cx: &mut Context<'_>) -> Poll<Self::Output> {
+                self.poll_recv(cx)
+            }
+        }
+    }
+
+    /// minimal model of `ntex_util::channel::bstream` (payload stream): a two-slot queue of chunks,
+    /// eof / error marker, and the readiness status the dispatchers consult
+    pub mod bstream {
+        use ntex_bytes::Bytes;
+        use std::{cell::Cell, cell::RefCell};
+        #[derive(Debug, Copy, Clone, PartialEq, Eq)]
+        pub enum Status {
+            Eof,
+            Ready,
+            Dropped,
+        }
+        pub struct Shared<E> {
+            pub chunks: RefCell<[Option<Bytes>; 4]>,
+            pub n: Cell<usize>,
+            pub eof: Cell<bool>,
+            pub err: Cell<Option<E>>,
+            pub rx_alive: Cell<bool>,
+            pub fed_bytes: Cell<usize>,
+        }
+        pub struct Sender<E> {
+            inner: *const Shared<E>,
+        }
+        pub struct Receiver<E> {
+            inner: *const Shared<E>,
+        }
+        impl<E> Clone for Sender<E> {
+            fn clone(&self) -> Self {
+                Sender { inner: self.inner }
+            }
+        }
+        impl<E> std::fmt::Debug for Sender<E> {
+            fn fmt(&self, f: &mut std::fmt::Formatter<'_>) -> std::fmt::Result {
+                f.write_str("bstream::Sender")
+            }
+        }
+        impl<E> std::fmt::Debug for Receiver<E> {
+            fn fmt(&self, f: &mut std::fmt::Formatter<'_>) -> std::fmt::Result {
+                f.write_str("bstream::Receiver")
+            }
+        }
+        pub fn channel<E>() -> (Sender<E>, Receiver<E>) {
+            let p: *const Shared<E> = Box::into_raw(Box::new(Shared {
+                chunks: RefCell::new([const { None }; 4]),
+                n: Cell::new(0),
+                eof: Cell::new(false),
+                err: Cell::new(None),
+                rx_alive: Cell::new(true),
+                fed_bytes: Cell::new(0),
+            }));
+            (Sender { inner: p }, Receiver { inner: p })
+        }
+        impl<E> Sender<E> {
+            pub fn shared(&self) -> &Shared<E> {
+                unsafe { &*self.inner }
+            }
+            pub fn set_error(&self, err: E) {
+                self.shared().err.set(Some(err));
+            }
+            pub fn feed_eof(&self) {
+                self.shared().eof.set(true);
+            }
+            pub fn feed_data(&self, data: Bytes) {
+                let s = self.shared();
+                let n = s.n.get();
+                assert!(n < 4, "MODEL CAPACITY: bstream model holds at most 4 chunks");
+                s.fed_bytes.set(s.fed_bytes.get() + data.len());
+                s.chunks.borrow_mut()[n] = Some(data);
+                s.n.set(n + 1);
+            }
+            pub async fn ready(&self) -> Status {
+                let s = self.shared();
+                if !s.rx_alive.get() {
+                    Status::Dropped
+                } else if s.eof.get() {
+                    Status::Eof
+                } else {
+                    Status::Ready
+                }
+            }
+        }
+        impl<E> Receiver<E> {
+            pub fn shared(&self) -> &Shared<E> {
+                unsafe { &*self.inner }
+            }
+            pub fn max_buffer_size(&self, _size: usize) {}
+            pub async fn read(&self) -> Option<Result<Bytes, E>> {
+                let s = self.shared();
+                if let Some(e) = s.err.take() {
+                    return Some(Err(e));
+                }
+                let n = s.n.get();
+                if n > 0 {
+                    let mut c = s.chunks.borrow_mut();
+                    let first = c[0].take();
+                    let mut i = 1;
+                    while i < 4 {
+                        c[i - 1] = c[i].take();
+                        i += 1;
+                    }
+                    s.n.set(n - 1);
+                    return first.map(Ok);
+                }
+                None
+            }
+        }
+        impl<E> Drop for Receiver<E> {
+            fn drop(&mut self) {
+                self.shared().rx_alive.set(false);
+            }
+        }
+    }
+}
